@@ -475,7 +475,12 @@ def handle_exposure(p):
             px = np.asarray(res["bucket"]["pixel"].values, dtype=float)
         if px.ndim != 3 or px.shape[1:] != (det_spec["rows"], det_spec["cols"]):
             return dict(aux=auxs, **{"raise": f"shape:{px.shape}"})
-        return dict(aux=auxs, pixel=[hx(px[i]) for i in range(px.shape[0])])
+        # the schedule as the Readout object and the detector's own readout properties carry it after the run
+        sched = []
+        for obj in (ro, det.readout_properties):
+            sched.append(dict(start=float(obj.start_time).hex(), times=hx(obj.times), steps=hx(obj.steps),
+                              nd=bool(obj.non_destructive)))
+        return dict(aux=auxs, pixel=[hx(px[i]) for i in range(px.shape[0])], sched=sched)
     except Exception as ex:  # noqa: BLE001
         return dict(aux=auxs, **{"raise": type(ex).__name__, "msg": str(ex)[:300]})
 
